@@ -547,6 +547,57 @@ func definedOutside(v ssa.Value, li *loopInfo) bool {
 	return false
 }
 
+// callMayAlloc: whether a call can create objects.  Mutex operations, atomics and callees whose
+// bodies (transitively, to a small depth) contain no allocating instruction cannot; everything
+// else is taken to allocate.
+func (x *Exec) callMayAlloc(c *ssa.Call, depth int, seen map[*ssa.Function]bool) bool {
+	if b, ok := c.Call.Value.(*ssa.Builtin); ok {
+		switch b.Name() {
+		case "len", "cap", "copy", "delete", "close", "min", "max":
+			return false
+		}
+		return true
+	}
+	f := c.Call.StaticCallee()
+	if f == nil {
+		return true
+	}
+	name := f.String()
+	if strings.HasPrefix(name, "sync/atomic.") || strings.HasPrefix(name, "(*sync/atomic.") {
+		return false
+	}
+	switch name {
+	case "(*sync.Mutex).Lock", "(*sync.Mutex).Unlock", "(*sync.RWMutex).Lock", "(*sync.RWMutex).Unlock",
+		"(*sync.RWMutex).RLock", "(*sync.RWMutex).RUnlock", "(*sync.Mutex).TryLock":
+		return false
+	}
+	if f.Blocks == nil || depth > 3 || seen[f] {
+		return true
+	}
+	seen[f] = true
+	for _, b := range f.Blocks {
+		for _, ins := range b.Instrs {
+			switch t := ins.(type) {
+			case *ssa.Alloc:
+				if t.Heap {
+					return true
+				}
+			case *ssa.MakeSlice, *ssa.MakeMap, *ssa.MakeChan, *ssa.MakeClosure, *ssa.MakeInterface, *ssa.Convert, *ssa.Go, *ssa.Defer:
+				return true
+			case *ssa.BinOp:
+				if bt, ok := t.X.Type().Underlying().(*types.Basic); ok && bt.Info()&types.IsString != 0 && t.Op == token.ADD {
+					return true
+				}
+			case *ssa.Call:
+				if x.callMayAlloc(t, depth+1, seen) {
+					return true
+				}
+			}
+		}
+	}
+	return false
+}
+
 func (x *Exec) havocLoop(fr *Frame, st *State, li *loopInfo) {
 	tb := x.tb
 	eff := &Effects{Classes: map[string]bool{}}
@@ -601,7 +652,12 @@ func (x *Exec) havocLoop(fr *Frame, st *State, li *loopInfo) {
 			}
 			switch t := ins.(type) {
 			case *ssa.Alloc, *ssa.MakeSlice, *ssa.MakeMap, *ssa.MakeChan, *ssa.MakeClosure, *ssa.MakeInterface, *ssa.Call, *ssa.Convert:
-				allocs = true
+				if c, ok := t.(*ssa.Call); !ok || x.callMayAlloc(c, 0, map[*ssa.Function]bool{}) {
+					allocs = true
+					if os.Getenv("GOVC_DEBUG_ALLOC") != "" {
+						fmt.Fprintf(os.Stderr, "loop allocates: %s\n", ins)
+					}
+				}
 				if c, ok := t.(*ssa.Call); ok {
 					if f := c.Call.StaticCallee(); f != nil && strings.HasPrefix(f.String(), "sync/atomic.") && !strings.HasPrefix(f.String(), "sync/atomic.Load") {
 						atomics = true
